@@ -53,6 +53,9 @@ def run_seed(name, checks, tiers):
         return {"name": name, "error": "worktree: " + out}
     res = {"name": name, "property": prop, "runs": []}
     try:
+        # make the untouched sources look older than the copied build caches, so that cargo rebuilds
+        # only what the patch touches (the caches were built from the same /repo HEAD)
+        sh(f"find {rcopy} -type f -not -path '*/.git/*' -exec touch -d '2021-01-01' {{}} +")
         rc, out = sh(f"git -C {rcopy} apply {sdir}/patch.diff")
         if rc != 0:
             res["error"] = "patch does not apply: " + out
